@@ -52,6 +52,9 @@ type node struct {
 	//               after Submit accepted the task and before a worker picks it up
 	stopRace bool // 'Z': pooled on a saturated 1-worker pool; the pool is stopped while Submit is blocked on
 	//               the full queue (Stop() racing Submit), then the queue is drained
+	either    bool // 'R': pooled, submitted with a context that is already done while the queue has room:
+	//               workerPool.Submit's select may take either case (rejected: 'r', accepted: stays 'R')
+	eitherOpen bool // 'R': submitted, neither its gate nor its rejection seen yet
 	submitted chan struct{} // 'Z': closed when the goroutine that started the stage is seen to go on after Submit
 	cancel    context.CancelFunc
 	cwait     chan struct{} // non-nil: the stage's Complete() hook parks until the harness closes it
@@ -80,6 +83,12 @@ func (n *node) token() string {
 	}
 	if n.stopRace {
 		k = "Z"
+	}
+	if n.either {
+		k = "R"
+		if n.rej != 0 {
+			k = "r" // the select took `<-ctx.Done()`
+		}
 	}
 	return fmt.Sprintf("%s%c%d", k, n.out, len(n.children))
 }
@@ -122,6 +131,7 @@ func tree(s string) *node {
 		}
 		n.queued = s[pos] == 'Q'
 		n.stopRace = s[pos] == 'Z'
+		n.either = s[pos] == 'R'
 		pos += 2
 		if pos < len(s) && s[pos] == '*' { // the stage's operator is trackable (has Stats())
 			n.trackable = true
@@ -217,6 +227,9 @@ func genTree(r *rand.Rand, kind genKind, maxNodes int) *node {
 		}
 		if n.async && n.rej == 0 && !n.queued && !*haveZ && r.Intn(16) == 0 {
 			n.stopRace, *haveZ = true, true
+		}
+		if n.async && n.rej == 0 && !n.queued && !n.stopRace && r.Intn(8) == 0 {
+			n.either = true
 		}
 		if depth < 4 {
 			fan := r.Intn(4)
@@ -482,6 +495,9 @@ func (r *runner) mkStage(n *node) stage.Stage {
 		var qctx context.Context
 		qctx, n.cancel = context.WithCancel(context.Background())
 		spec.Ctx, spec.Pool = qctx, r.env.qpool
+	case n.either:
+		// a done context on the pool that has room: both cases of Submit's select are ready
+		spec.Ctx, spec.Pool = r.env.cancelled, r.env.pool
 	case n.rej == 'X':
 		spec.Ctx, spec.Pool = r.ctx, r.env.stopped
 	case n.rej == 'C':
@@ -598,6 +614,13 @@ func (r *runner) settleP(running int, patience time.Duration) (stalled bool) {
 				e.n.thread = -1
 				r.failed = true
 				r.o.rejected = append(r.o.rejected, e.n)
+			case e.n.either:
+				// accepted (its gate event follows, from a pool worker) or rejected (its Complete() follows at
+				// once, on this goroutine): the number is taken back in the second case
+				e.n.thread = r.nextThr
+				r.nextThr++
+				r.pendArr++
+				e.n.eitherOpen = true
 			case e.n.stopRace:
 				e.n.thread = r.nextThr
 				r.nextThr++
@@ -615,6 +638,10 @@ func (r *runner) settleP(running int, patience time.Duration) (stalled bool) {
 				e.n.thread = running
 			}
 		case "gate":
+			if e.n.eitherOpen {
+				e.n.eitherOpen = false
+				r.c.Branch("submit-select-took-the-queue")
+			}
 			if e.n.async {
 				if e.n == waitingQ {
 					waitingQ = nil
@@ -626,6 +653,22 @@ func (r *runner) settleP(running int, patience time.Duration) (stalled bool) {
 				runningDone = true
 			}
 		case "complete":
+			if e.n.eitherOpen {
+				// completed without ever reaching its gate: Submit's select took `<-ctx.Done()` and the pool
+				// called the task's handler (errHandle → completeStage) on the submitting goroutine
+				e.n.eitherOpen = false
+				r.c.Branch("submit-select-took-ctx-done")
+				if e.n.thread != r.nextThr-1 {
+					r.o.timeout = fmt.Sprintf("harness: stage #%d was rejected after later tasks had been numbered", e.n.id)
+					return false
+				}
+				r.nextThr--
+				e.n.thread = -1
+				e.n.rej = 'r'
+				r.pendArr--
+				r.failed = true
+				r.o.rejected = append(r.o.rejected, e.n)
+			}
 			r.o.done++
 			e.n.ncomp++
 			if r.o.cb == 0 {
@@ -874,14 +917,28 @@ func runPipelineB(c *core.Ctx, en *env, root *node, rng *rand.Rand, sched []int,
 		}()
 		r.pipe.Execute(rootStage)
 	}()
-	c.Op("new "+tokens(root), func() string { r.settle(0); return r.status() }())
+	// the op lines are written at the end of the case: the `new` line names, for every 'R' stage, the case
+	// Submit's select took (known only once the stage was launched)
+	type opLine struct{ op, out string }
+	var lines []opLine
+	emit := func(op, out string) { lines = append(lines, opLine{op, out}) }
+	flush := func() {
+		for i, l := range lines {
+			if i == 0 {
+				l.op = "new " + tokens(root)
+			}
+			c.Op(l.op, l.out)
+		}
+	}
+	emit("new", func() string { r.settle(0); return r.status() }())
 	var used []int
 	if burst {
 		if r.o.timeout == "" {
 			r.burst()
-			c.Op("burst", r.status())
+			emit("burst", r.status())
 		}
-		c.Op("end", r.final())
+		emit("end", r.final())
+		flush()
 		close(r.done)
 		return r, []int{burstMark}
 	}
@@ -902,7 +959,7 @@ func runPipelineB(c *core.Ctx, en *env, root *node, rng *rand.Rand, sched []int,
 	}
 	cwinOK := func(a int) bool {
 		n := r.blocked[a]
-		return n != nil && n.async && n.rej == 0 && !n.queued && n.out == 'o' && len(n.children) == 0
+		return n != nil && n.async && n.rej == 0 && !n.queued && !n.either && n.out == 'o' && len(n.children) == 0
 	}
 	didCwin := false
 	for step := 0; len(r.blocked) > 0 && r.o.timeout == ""; step++ {
@@ -963,13 +1020,13 @@ func runPipelineB(c *core.Ctx, en *env, root *node, rng *rand.Rand, sched []int,
 			if r.o.timeout == "" {
 				r.awaitDec() // A's Dec (and everybody else's)
 			}
-			c.Op(fmt.Sprintf("cwin %d %d", cwA, cwB), r.status())
+			emit(fmt.Sprintf("cwin %d %d", cwA, cwB), r.status())
 			continue
 		}
 		used = append(used, k)
 		release(k)
 		r.settle(k)
-		c.Op("rel "+strconv.Itoa(k), r.status())
+		emit("rel "+strconv.Itoa(k), r.status())
 	}
 	if r.o.cb == 0 && r.o.timeout == "" {
 		// nothing is running any more; a callback cannot arrive. Look once more, briefly.
@@ -995,7 +1052,8 @@ func runPipelineB(c *core.Ctx, en *env, root *node, rng *rand.Rand, sched []int,
 			drained = true
 		}
 	}
-	c.Op("end", r.final())
+	emit("end", r.final())
+	flush()
 	// never leave a goroutine parked
 	close(r.done)
 	for _, n := range all {
@@ -1224,6 +1282,11 @@ var fixed = []fixedCase{
 	// exactly once, and never rejected as well
 	{"So(Zo)", []int{0, 1}, ""},
 	{"So(Ao(Ze,Ao),Ao)", []int{0, 1, 2, 3, 4}, ""},
+	// Submit with a done context while the queue has room: the select takes either case (random release
+	// order: which goroutines exist depends on the choice); exactly one completion whichever it was
+	{"So(Ro)", nil, ""},
+	{"So(Ro(Ao),Re)", nil, ""},
+	{"Ro(Ro,Ao)", nil, ""},
 	// (c) the pool rejects the task of a registered stage: stopped pool / cancelled context
 	{"So(Xo)", []int{0}, "witness-rejected-task-stopped-pool"},
 	{"So(Ao(Co,Ae))", []int{0, 1, 2}, "witness-rejected-task-cancelled-context"},
@@ -1315,6 +1378,10 @@ func (area) Run(c *core.Ctx) error {
 			runLeaf(c, rng)
 			continue
 		}
+		if i%20 == 13 {
+			runPlanExec(c, peGen(rng))
+			continue
+		}
 		if i%50 == 7 {
 			// random order of 1-5 pooled stages, each Complete() hook panics with probability 1/3
 			var sb strings.Builder
@@ -1350,7 +1417,7 @@ func (area) Run(c *core.Ctx) error {
 		if burst {
 			// every goroutine is released at once; only stage kinds that need no orchestration
 			preorder(root, func(n *node) {
-				n.queued, n.stopRace = false, false
+				n.queued, n.stopRace, n.either = false, false, false
 				if n.rej == 'C' {
 					n.rej = 'X'
 				}
